@@ -56,3 +56,36 @@ func orContains(t, c *Term, budget *int) bool {
 	}
 	return false
 }
+
+// lshWide is x << n (mod 2^W, 0 for n >= W; exactly bvshl) for a symbolic
+// 64-bit amount n.  For a small non-negative x (< 2^64) it is built from one
+// 128-bit shift by n mod 64 placed at word n div 64: z3 bit-blasts a W-bit
+// bvshl with a W-bit amount in time quadratic in W (seconds per shift at
+// W = 2056), this form is linear.
+func (p *Path) lshWide(x, n, amt *Term) *Term {
+	tt := p.tt
+	w := x.S.W
+	if n.S.W != 64 || w < 256 || !p.isNonneg(x) || p.bound(x) > 64 {
+		return tt.BVShl(x, amt)
+	}
+	x128 := tt.ZExt(tt.Extract(x, 63, 0), 128)
+	r6 := tt.ZExt(tt.BVAnd(n, BVConstU(63, 64)), 128)
+	q := tt.BVLShr(n, BVConstU(6, 64))
+	sh := tt.BVShl(x128, r6)
+	lo, hi := tt.Extract(sh, 63, 0), tt.Extract(sh, 127, 64)
+	zero := BVConstU(0, 64)
+	nw := (w + 63) / 64
+	var cat *Term
+	for j := 0; j < nw; j++ {
+		wj := tt.Ite(tt.Eq(q, BVConstU(uint64(j), 64)), lo, zero)
+		if j > 0 {
+			wj = tt.BVOr(wj, tt.Ite(tt.Eq(q, BVConstU(uint64(j-1), 64)), hi, zero))
+		}
+		if cat == nil {
+			cat = wj
+		} else {
+			cat = tt.Concat(wj, cat)
+		}
+	}
+	return tt.Extract(cat, w-1, 0)
+}
